@@ -14,7 +14,7 @@ import (
 
 func init() {
 	register(Profile{Property: "C17", Name: "current-metadata", Gen: func(r *RNG, seed uint64, tier string) (*Scenario, *ExploreCfg) {
-		sc := &Scenario{Property: "C17", Profile: "current-metadata", Knobs: randomKnobs(r), Checks: []string{"current-metadata", "replay"}}
+		sc := &Scenario{Property: "C17", Profile: "current-metadata", Knobs: randomKnobs(r), Checks: []string{"current-metadata", "replay", "metadata-history-rows"}}
 		g := &gen{r: r, sc: sc}
 		sc.Setup = []Op{{ID: g.id("s"), Kind: KCreateLedger, Ledger: "l1", Feats: featureMix(r, sc.Knobs.HashLogs)}}
 		for i := 0; i < 2; i++ {
@@ -156,4 +156,116 @@ func checkCurrentMetadata(r *runner, views map[string]*LedgerView) []Violation {
 		}
 	}
 	return vs
+}
+
+// checkMetadataHistoryRows (C17 history, write side; C35): what the metadata-history triggers wrote, judged in
+// the real-SQL runs (the triggers fire as the real AddLedger installed them, sqlmini_tables.go:metaHistory):
+//   - a ledger whose *_METADATA_HISTORY is not SYNC has no history row at all;
+//   - with SYNC, every account / transaction has revisions 1..n without a gap, the last one carries the row's
+//     current metadata, and every metadata state a commit left behind appears among the revisions, in order.
+func checkMetadataHistoryRows(r *runner) []Violation {
+	if !r.sc.Knobs.RealSQL {
+		return nil
+	}
+	var vs []Violation
+	prop := r.sc.Property
+	snap := r.w.db.CommittedSnapshot()
+	type hk struct{ table, ledger, id string }
+	revs := map[hk][]*MetaRev{}
+	for k, v := range snap {
+		if m, ok := v.(*MetaRev); ok {
+			revs[hk{k.Table, k.Ledger, m.ID}] = append(revs[hk{k.Table, k.Ledger, m.ID}], m)
+		}
+	}
+	for k := range revs {
+		sort.Slice(revs[k], func(a, b int) bool { return revs[k][a].Revision < revs[k][b].Revision })
+	}
+	// committed states per entity, in commit order
+	states := map[hk][]map[string]string{}
+	for _, rec := range r.w.db.CommitsSince(0) {
+		for _, wr := range rec.Writes {
+			switch row := wr.After.(type) {
+			case *AcctRow:
+				k := hk{"acctmeta", wr.Key.Ledger, row.Address}
+				states[k] = append(states[k], row.Metadata)
+			case *ledger.Transaction:
+				if wr.Key.Table == "tx" && row.ID != nil {
+					k := hk{"txmeta", wr.Key.Ledger, fmt.Sprint(*row.ID)}
+					states[k] = append(states[k], map[string]string(row.Metadata))
+				}
+			}
+		}
+	}
+	feature := map[string]string{"acctmeta": "ACCOUNT_METADATA_HISTORY", "txmeta": "TRANSACTION_METADATA_HISTORY"}
+	for k, rs := range revs {
+		if val := r.featuresOf(k.ledger)[feature[k.table]]; val != "" && val != "SYNC" {
+			vs = append(vs, Violation{prop, "no-metadata-history-is-written-without-the-feature", fmt.Sprintf("ledger %s has %s=%s, yet %d revision(s) of the metadata of %s were written to the history", k.ledger, feature[k.table], val, len(rs), k.id)})
+		}
+	}
+	keys := make([]hk, 0, len(states))
+	for k := range states {
+		keys = append(keys, k)
+	}
+	sort.Slice(keys, func(a, b int) bool { return fmt.Sprint(keys[a]) < fmt.Sprint(keys[b]) })
+	for _, k := range keys {
+		if val := r.featuresOf(k.ledger)[feature[k.table]]; val != "" && val != "SYNC" {
+			continue
+		}
+		if _, isLedger := snap[rowKey{"ledger", "", k.ledger}]; !isLedger {
+			continue
+		}
+		rs, sts := revs[k], states[k]
+		what := fmt.Sprintf("ledger %s %s %s", k.ledger, map[string]string{"acctmeta": "account", "txmeta": "transaction"}[k.table], k.id)
+		if len(rs) == 0 {
+			vs = append(vs, Violation{prop, "metadata-history-follows-every-change", fmt.Sprintf("%s: %s is SYNC and the history holds no revision (committed states: %v)", what, feature[k.table], sts)})
+			continue
+		}
+		for i, m := range rs {
+			if m.Revision != i+1 {
+				vs = append(vs, Violation{prop, "metadata-history-follows-every-change", fmt.Sprintf("%s: revisions are not 1..n: position %d holds revision %d", what, i, m.Revision)})
+				break
+			}
+		}
+		if cur := sts[len(sts)-1]; !sameMeta(rs[len(rs)-1].Metadata, cur) {
+			vs = append(vs, Violation{prop, "metadata-history-follows-every-change", fmt.Sprintf("%s: the last revision (%d) carries %v, the current metadata is %v", what, rs[len(rs)-1].Revision, rs[len(rs)-1].Metadata, cur)})
+			continue
+		}
+		// every committed state appears among the revisions, in order
+		pos := 0
+		for _, st := range sts {
+			found := false
+			for pos < len(rs) {
+				if sameMeta(rs[pos].Metadata, st) {
+					found = true
+					break
+				}
+				pos++
+			}
+			if !found {
+				vs = append(vs, Violation{prop, "metadata-history-follows-every-change", fmt.Sprintf("%s: the state %v, committed, is not among the revisions (in order) %v", what, st, revMetas(rs))})
+				break
+			}
+		}
+	}
+	return vs
+}
+
+func sameMeta(a, b map[string]string) bool {
+	if len(a) != len(b) {
+		return false
+	}
+	for k, v := range a {
+		if w, ok := b[k]; !ok || w != v {
+			return false
+		}
+	}
+	return true
+}
+
+func revMetas(rs []*MetaRev) []map[string]string {
+	var out []map[string]string
+	for _, m := range rs {
+		out = append(out, m.Metadata)
+	}
+	return out
 }
